@@ -54,7 +54,7 @@ def run(check, an: Analysis):
             if event.kind == 'susp' and event.depth == 0 and event.get('user') and \
                     event['exit'] != 'normal':
                 calls = [e for e in path.events[index:] if is_call_to(e, '__child_finished__')]
-                flags = tuple(_scope.child_finished_flag(e) for e in calls)
+                flags = tuple(_scope.child_finished_flag(e, path) for e in calls)
                 stores = [e for e in path.events[index:] if e.kind == 'store'
                           and e['path'] == 'self._result']
                 handler = [e for e in path.events[index:] if e.kind == 'handler'][:1]
